@@ -3,7 +3,7 @@
    and SetGasTip.  The proof needs addLocked's recomputation to run from the replaced index to
    the tail: a variant that stops early does not satisfy [reev_rolling]. *)
 From Coq Require Import List NArith ZArith Bool Lia.
-From GV Require Import Lib.Tactics Pool.Blob Pool.BlobProofs Pool.BlobAddProofs Pool.BlobResetProofs.
+From GV Require Import Lib.Tactics Pool.Blob Pool.BlobProofs Pool.BlobAddProofs.
 Import ListNotations.
 Local Open Scope N_scope.
 
